@@ -1,7 +1,68 @@
 NOT_APPLICABLE = {}
-reg("C16", "exploration", "bounded exhaustive input enumeration at the function seam (cell-coverage driven) + generated packages through the CLI",
-    "F function-seam enumerator",
-    "Every cell {first base64 symbol} x {length} x {name class} of the real hashWithCustomSalt is driven >=3 (quick) / >=12 (thorough) times and checked "
-    "against the stated output contract and a sha256-prefix derivation model; distinctness on 60k/600k identifiers; big packages built end to end.",
-    "trusts crypto/sha256, encoding/base64, go/token and the Go toolchain; salts/seeds outside the enumerated ones are not covered",
-    "DESIGN.md 4 C16")
+A = "A program-space explorer"
+B = "B choice-point explorer"
+C = "C history/fault/crash enumerator"
+D = "D controlled-scheduler interleaving explorer"
+E = "E argv enumerator"
+F = "F function-seam enumerator"
+reg("C01", "exploration", "bounded exhaustive program enumeration (unit catalogue x type-constructor chains x config grid) through the real CLI, differential oracle against the Go toolchain", A,
+    "Every unit of a parameterised catalogue (all parameter tuples) and every expressible chain of <=2 (quick) / 3 (thorough) type constructors x package placement is built by garble under the configuration grid and run on 3 argument vectors; "
+    "stdout per unit and exit status must equal the plain build; plus -ldflags=-X, garble run and garble test programs. A failure is bisected to a minimal set of units.",
+    "claims hold for programs of the catalogue/algebra only; trusts the Go toolchain as reference semantics", "DESIGN.md 4 C01")
+reg("C02", "exploration", "marker enumeration: one unique token per syntactic position kind x flag/location/TMPDIR grid, byte scan of the binary", A,
+    "A generated 3-package module (Go, assembly, headers, //line directives) in which every name is a unique marker; every non-exempt marker must be absent from the garbled binary under every grid cell, metadata readers must find nothing; vacuity guard: the markers are present in the plain build.",
+    "substring scan; names hidden by compression/encoding would be missed", "DESIGN.md 4 C02")
+reg("C03", "exploration", "single-factor enumeration of the build environment around a cold baseline (CLI) + scripted-generator / global-seed exploration at the unit seam", A + " / " + B,
+    "Every single-factor deviation (second cold build, warm rebuild, dependency first, -p, source location, TMPDIR placement) of the baseline build must give the same sha256; ctrlflow.Obfuscate must not depend on the process-global math/rand (decided by seeding it with two values) nor on map order (sampled).",
+    "map iteration orders are sampled (no order-controlling instrumentation); the standard library is warm in all grid builds", "DESIGN.md 4 C03")
+reg("C04", "exploration", "exhaustive call-chain enumeration (frame kinds^<=2/3 x terminal) through build + reverse, line-by-line differential against the -trimpath build", A,
+    "All chains of <=2 (quick) / 3 (thorough) frames over 15 frame kinds ending in debug.Stack/panic/runtime.Caller; each garbled trace is reversed and every user frame's function and file:line compared with the regular build; text forms and exit status.",
+    "assumes identical inlining in both builds; go/defer statement and multi-line call positions are listed known findings", "DESIGN.md 4 C04")
+reg("C05", "exploration", "deviation-bounded exploration of the obfuscation PRNG (scripted math/rand Source) on the real literals.Obfuscate, every result compiled by gc and executed", B,
+    "For each obfuscator x literal form x data: base streams and, per rand call site, each of its first draws replaced by each alphabet value (deviation 1; thorough: every position on the smallest instance, deviation 2 on key/index/operator sites); every obfuscated literal must decode to its original bytes; boundary lengths; 44 syntactic contexts end to end with each obfuscator forced.",
+    "draw values outside the 11-value alphabet and >2 simultaneous deviations only through PRNG base streams", "DESIGN.md 4 C05")
+reg("C06", "exploration", "exhaustive enumeration of build/edit histories (all ordered pairs of configurations, build-edit-build) over one shared cache pair, oracle = cold build of the final state", C,
+    "Every ordered pair of configurations and every build;edit(p);build history: the last binary must be byte-identical to (and behave like) a build whose user packages are cold, and an unchanged rebuild must recompile nothing.",
+    "standard-library entries are shared between history and reference", "DESIGN.md 4 C06")
+reg("C07", "fault_enumeration", "exhaustive single/pair/subset fault injection (delete, empty, truncate) over every cache entry a build added, followed by rebuilds with and without edits", C,
+    "Every cache file added by a warm build of a 3-level reflecting module x 3 fault kinds, all pairs of garble index entries, all whole-tree deletions, each followed by rebuild / rebuild after editing main / mid; the result must equal the cold reference.",
+    "faults are applied between builds", "DESIGN.md 4 C07")
+reg("C08", "exploration", "exhaustive enumeration declaring package x reflecting package x flow path (+ type chains) through the CLI; exhaustive small-scope comparison of the injected replacer with strings.NewReplacer", A + " / " + F,
+    "A nested struct declared in {main, dep, dep of dep} reflected in {main, dep} through 19 flow paths, plus type-algebra chains with reflective use sites: reflection output must equal the plain build; the injected replacer equals strings.NewReplacer on all <=3-pair lists over prefix-sharing keys x inputs up to length 6/7.",
+    "one map iteration order per build is observed", "DESIGN.md 4 C08")
+reg("C09", "exploration", "marker enumeration: unique literal per (syntactic position, length) x flag/seed/-X grid, byte scan of the binary", A,
+    "A unique high-entropy literal of each window length in each of ~32 syntactic positions; none may occur in the -literals binary, nor the seed; exempt positions are recorded only; output must equal the plain build.",
+    "whole-literal substring scan", "DESIGN.md 4 C09")
+reg("C10", "exploration", "exhaustive crash-kind x goroutine-context x GOTRACEBACK enumeration, differential against the regular build", A,
+    "29 crash kinds x 4 contexts x GOTRACEBACK values: the -tiny binary's stderr holds only program-written lines, stdout and exit status equal the regular build, position queries report no file.",
+    "timing-dependent crash kinds excluded", "DESIGN.md 4 C10")
+reg("C11", "exploration", "deviation-bounded exploration of the obfuscation PRNG on the real ctrlflow.Obfuscate+ssa2ast over a parameter grid, every rewritten package compiled by gc and executed on an argument grid", B,
+    "47 functions x parameter grid x base streams, and per rand call site its first draws replaced by alphabet values; each distinct rewritten package is compiled and run (182 observations) and compared per function with the original; rejected functions (error, crash, compile error) are counted, not failed.",
+    "the six baseline miscompilations and the trash_blocks+block_splits combination are listed known findings; map order not controlled", "DESIGN.md 4 C11")
+reg("C12", "exploration", "pairwise single-input-difference enumeration over complete name maps recovered from -debugdir", A,
+    "Complete name maps of 8 (quick) / 20 (thorough) builds; every pair differing in exactly one input is judged name by name against the salting rules (seeded: equal unless seed/path; unseeded: all change iff an input of the package changes).",
+    "accidental hash equality would be reported (p < 2^-36)", "DESIGN.md 4 C12")
+reg("C13", "exploration", "object-by-object comparison of garble map, the build (-debugdir) and garble reverse over an API corpus x configurations", A,
+    "Every listed object and path is compared with the name the build uses, completeness is checked with an independent go/types+objectpath walk, and every listed name is fed through garble reverse.",
+    "embedded-field naming is a listed known finding", "DESIGN.md 4 C13")
+reg("C14", "exploration", "exhaustive enumeration of package subsets (2^5) x pattern syntaxes, marker scan + differential behaviour", A,
+    "Every non-empty subset of a 5-package module (12 in quick) expressed as GOGARBLE pattern lists; selected packages' markers absent, unselected ones verbatim, runtime intact, behaviour equal, non-matching patterns rejected.",
+    "struct conversion across the boundary is a listed known finding", "DESIGN.md 4 C14")
+reg("C15", "exploration", "exhaustive small-scope enumeration of struct types (<=3/4 fields) x declaration variants at the function seam; generated conversion programs through the CLI", F + " / " + A,
+    "All structs over the field-spec alphabet in all variants (tags, field packages, named/alias/generic origin+instantiations): equal hashWithStruct names within every types.IdenticalIgnoreTags class; 66/228 struct shapes converted across three packages end to end.",
+    "go/types defines identity", "DESIGN.md 4 C15")
+reg("C16", "exploration", "bounded exhaustive input enumeration at the function seam (cell-coverage driven) + generated packages through the CLI", F,
+    "Every cell {first base64 symbol} x {length} x {name class} of the real hashWithCustomSalt is driven >=3 (quick) / >=12 (thorough) times and checked against the stated output contract and a sha256-prefix derivation model; distinctness on 60k/600k identifiers; big packages built end to end.",
+    "trusts crypto/sha256, encoding/base64, go/token and the Go toolchain; salts/seeds outside the enumerated ones are not covered", "DESIGN.md 4 C16")
+reg("C17", "model_checking", "stateless DFS over all interleavings (preemption-bounded for >=3 processes) and crash points of the real linker-cache protocol under a controlled scheduler with an OS shim; stub conformance by strace", D,
+    "The real linker.PatchLinker plus the unlock/run order extracted from main.go, 2-4 simulated processes, 5 initial cache states, both install modes, 0-2 crashes: on every execution each process that executes the linker reads a complete image of its own version, no deadlock, all live processes finish. Real concurrent builds are sampled in addition.",
+    "external tools are stubs validated against strace of the real go command; go-internal's cache is not re-verified", "DESIGN.md 4 C17")
+reg("C18", "fault_enumeration", "crash-point enumeration on the real build: ptrace supervisor kills the process tree before the K-th file-system mutation, for every selected K, then recovery build", C,
+    "Real garble builds from three start states; killed before each (thorough) / a class-covering selection (quick) of the mutations touching GOCACHE, GARBLE_CACHE and the output; re-running the build on the surviving state must succeed and reproduce the reference binary.",
+    "one schedule (-p 1); torn single writes are not produced", "DESIGN.md 4 C18")
+reg("C19", "exploration", "exhaustive enumeration commands x outcomes x -debugdir target states x cache states with recursive snapshots", A,
+    "All commands x 7 outcomes and build x 9 debugdir states x cache states: source tree byte-identical, private TMPDIR empty, foreign targets untouched and refused, owned targets complete, identical across runs, and every garbled file corresponds to its source.",
+    "TMPDIR private per run", "DESIGN.md 4 C19")
+reg("C20", "exploration", "exhaustive argv enumeration (length <=3/4 over the go command's real flag set, probed from the go binary) at the function seam + CLI conformance through a stub go", E,
+    "Every vector over {each flag in 4 spellings} U values against a reference splitter and forward filter whose flag table is probed from the real go binary; ~250 CLI vectors compare the argv garble hands to go list / go build with the prediction; garble flags after the command and unknown flags for reverse/map are rejected.",
+    "the go command's own parsing is the reference", "DESIGN.md 4 C20")
